@@ -14,7 +14,7 @@ Qed.
 Lemma nodup_step : forall v s l s', v_fb_fix v = true ->
   NoDup (table s) -> step v s l = Some s' -> NoDup (table s').
 Proof.
-  intros v s l s' Hv A H. step_cases H; unf; simpl; try assumption;
+  intros v s l s' Hv A H. use_fb_fix Hv H. step_cases H; unf; simpl; try assumption;
     try (rewrite Hv in *; discriminate).
   - constructor; assumption.
   - apply NoDup_rem1; assumption.
